@@ -12,7 +12,7 @@ pub fn def() -> PropDef {
         level: "exploration",
         profile,
         oracle: |_cfg| Box::new(C02::default()),
-        quick_runs: 24_000,
+        quick_runs: 72_000,
         thorough_runs: 600_000,
         panic_is_violation: false,
         rule: "run = seeded conflict-heavy multi-actor history; after every event that changes a replica's applied set the document read through the public API (R2) is compared with the reference interpreter (R1) over exactly that change set, plus 3 historical head sets at the end; non-trivial = run reached at least one of {conflict set >= 2, concurrent insert at same position, delete/overwrite of a conflicted value, nested replace}; distinct by digest of the final applied sets and state",
